@@ -558,7 +558,7 @@ def requests(ins, outs, all_subsets):
     return reqs
 
 
-def histories(ins, outs, level, all_subsets=False):
+def histories(ins, outs, level, all_subsets=False, all_pairs=True):
     """Request histories: one request (level 0), plus two successive requests on the same process
     (level 1: the quick set, level 2: the thorough set)."""
     hs = [[{"all": True}]]
@@ -580,13 +580,15 @@ def histories(ins, outs, level, all_subsets=False):
     for (i1, o1), (i2, o2) in itertools.permutations(single, 2):
         # same input / same output: only one side of the request grows; disjoint: the union contains two blocks
         # nobody asked for explicitly
-        hs.append([{"in": i1, "out": o1}, {"in": i2, "out": o2}])
+        if all_pairs or (i1 != i2 and o1 != o2):
+            hs.append([{"in": i1, "out": o1}, {"in": i2, "out": o2}])
         if level > 1 and i1 != i2 and o1 != o2:
             hs.append([{"in": i1, "out": o1}, {"in": i2, "out": o2, "pt": 1}])
     return hs
 
 
 CHAINLIKE = ("chain", "mda")
+PRUNING_KINDS = ("chain", "mda", "chain[chain,D]")
 
 
 def gen_cases(ctx, table):
@@ -623,11 +625,11 @@ def gen_cases(ctx, table):
             for tree in trees_for(specs, thorough):
                 ins, outs = tree_io(tree, specs)
                 kind = tree_kind(tree)
-                if kind in ("chain", "mda", "chain[chain,D]"):  # the kinds that prune by graph traversal
+                if kind in PRUNING_KINDS:  # the kinds that prune by graph traversal
                     level = 2 if thorough else 1
                 else:
                     level = 1 if thorough and kind in ("par", "add", "chain[par]") else 0
-                for h in histories(ins, outs, level, all_subsets=thorough and level == 2):
+                for h in histories(ins, outs, level, all_subsets=thorough and level == 2, all_pairs=kind in PRUNING_KINDS):
                     if h != [{"all": True}]:  # done in P1
                         yield mk("P2", specs, tree, h)
         if thorough:  # up to 4 names per side: single requests
